@@ -169,6 +169,8 @@ def run(ctx: Ctx) -> Result:
     _redis.consume_cuts(ctx, res)
     from . import _rabbit
     _rabbit.consume_cuts(ctx, res)
+    from . import _wstop
+    _wstop.worker_stop_cuts(ctx, res)
     seen, uniq = set(), []
     for f in res.failures:
         if f.kind not in seen:
